@@ -9,15 +9,16 @@ for both.  Directories are re-opened by fresh optimizer objects and by fresh pro
 
 Widened history operations and configurations:
   update  opt.update_from_tree(tree, overwrite=False|True|'improved') - the user stores a tree of his own for a pool
-          member (random contraction order, for the hyper kind possibly sliced): no search may run; the dict model
+          member (random contraction order, for the hyper and random-greedy kinds possibly sliced): no search may run; the dict model
           says whether the entry is created / replaced / kept (overwrite semantics of the docstring; a score tie may
           go either way); a replaced entry must describe the SUPPLIED tree (same contraction tree, sliced indices,
           score - the score from the independent cost model for the exact objectives); the next query for that
           contraction through an overwrite=False optimizer is a hit without search returning exactly that tree; a
           fresh object on the same directory (and the fresh process at the end) reads the same entry
-  cleanup opt.cleanup() in the middle of a history: the model forgets whatever the optimizer now reports missing
-          and every oracle keeps deciding the queries that follow (fresh-object agreement is checked on each of the
-          next three queries); whether cleanup() itself succeeds is not part of the property (counted, see FINDINGS)
+  cleanup opt.cleanup() in the middle of a history: it must return (every directory layout), afterwards every
+          contraction stored so far is missing for this object AND for a fresh cache_only optimizer on the directory
+          (KeyError: no entry file survives, nothing stale can be served "across processes"); the model is emptied
+          and every oracle keeps deciding the queries that follow (fresh-object agreement on each of the next three)
   auto    directory=True in a scratch working directory: an optimizer with EQUAL options (dict options built in
           another key order) finds the stored answer, one that differs in a single path-relevant option does not
 """
@@ -45,7 +46,7 @@ RULE = (
     "optimizer x {hyper, random-greedy, hyper-compressed (chi 2/4/8)} x hash_method {a,b} x directory {None, path} x directory_split x overwrite "
     "{False, True, 'improved'} x cache_only, slicing options on; re-opened by fresh objects and fresh processes; "
     "distinct = distinct (pool, configuration, query sequence); non-trivial = >=1 hit on an entry. Widened (from a derived "
-    "generator): update_from_tree steps (overwrite False/True/'improved', sliced trees for the hyper kind) each followed by a "
+    "generator): update_from_tree steps (overwrite False/True/'improved', sliced trees for the hyper and random-greedy kinds) each followed by a "
     "query of the same contraction, cleanup() steps, an update through a cache_only optimizer, and per case with p=0.25 the "
     "directory=True scenario (same options / one path-relevant option changed, both reusable classes + compressed)"
 )
@@ -57,12 +58,14 @@ ASSUMPTIONS = [
     "NOT the log10(flops) unit of searched entries - modelled per entry, see FINDINGS_widen-d.md)",
     "which options are 'path relevant' is the library's documented list; the changed option is always one of max_repeats, "
     "minimize/chi, methods, slicing_opts, reconf_opts, max_time (hyper) and max_repeats, temperature, costmod (random-greedy)",
-    "sliced trees are only handed to the hyper kind (PENDING-FINDING F-C14-1: the random-greedy kind stores but never re-applies sliced indices)",
+    "sliced trees are handed to the hyper and the random-greedy kind; the compressed kind has no slicing",
+    "cleanup(): 'the stored answers are gone' = this object reports every previously stored contraction missing and a fresh "
+    "cache_only optimizer on the directory raises KeyError for it (no entry file survives)",
 ]
 REQUIRED_MONITORS = ["queries", "hits", "misses", "repeat_same_order", "tree_of_query", "sliced_as_stored", "score_as_stored",
                      "sharing_events", "permuted_share", "fresh_object_reload", "fresh_process_reload", "cache_only", "improved_monotone", "compressed_answers",
                      "update_ops", "update_stored_as_supplied", "update_kept_old", "update_then_hit", "update_fresh_object", "update_sliced",
-                     "update_cache_only", "cleanup_ops", "post_cleanup_queries", "auto_dir_same_options_share", "auto_dir_other_options_separate"]
+                     "update_cache_only", "cleanup_ops", "cleanup_forgets", "post_cleanup_queries", "auto_dir_same_options_share", "auto_dir_other_options_separate"]
 SHARD_TIMEOUT = {"quick": 500, "thorough": 3600}
 
 
@@ -252,9 +255,9 @@ def user_tree(cfg, net, op, case_seed, step):
     objective = cfg["minimize"] if cfg["kind"] == "hyper" else "flops"
     tree = ct.make_tree(net, ssa, objective=objective)
     sliced = []
-    # PENDING-FINDING F-C14-1 (FINDINGS_widen-d.md): ReusableRandomGreedyOptimizer stores the sliced indices of a supplied
-    # tree but its hits never re-apply them -> sliced trees are only handed to the hyper kind
-    if op.get("slice") and cfg["kind"] == "hyper":
+    # sliced trees for both exact kinds (F-C14-1 of FINDINGS_widen-d.md - the random-greedy kind ignored the stored
+    # sliced indices on a hit - is repaired in /repo by 2225b09)
+    if op.get("slice"):
         cands = sorted({ix for t in net.inputs for ix in t})
         for ix in r.sample(cands, min(len(cands), r.randint(1, 2))):
             tree.remove_ind_(ix)
@@ -456,20 +459,33 @@ def run_history(rep, case, workdir):
         tag, net = pool[qi]
         op = ops.get(str(step))
         if op and op["op"] == "cleanup":
-            # the user empties the cache in the middle of the history; cleanup() failing is not the
-            # property's business (counted) - what the optimizer answers afterwards is
+            # the user empties the cache in the middle of the history
             rep.mon("cleanup_ops")
+            stored = [(hk_, h_of[hk_], n_) for hk_, n_ in creators.items() if hk_ in h_of and h_of[hk_] in opt._cache]
             try:
                 opt.cleanup()
-                rep.count("cleanup", f"returned|dir={bool(directory)}|split={opt.directory_split}")
             except Exception as e:
-                rep.count("cleanup", f"raised {type(e).__name__}|dir={bool(directory)}|split={opt.directory_split}")
-            for hk_, h_ in list(h_of.items()):
-                if h_ not in opt._cache:
-                    creators.pop(hk_, None)
-                    stored_scores.pop(hk_, None)
-                    origin.pop(hk_, None)
-                    forget(hk_)
+                return ("cleanup_raises", step, f"step {step}: cleanup() raised {type(e).__name__}: {e} (directory={bool(directory)}, directory_split={opt.directory_split})", {})
+            rep.count("cleanup", f"returned|dir={bool(directory)}|split={opt.directory_split}|stored={min(len(stored), 3)}")
+            for hk_, h_, n_ in stored:
+                rep.mon("cleanup_forgets")
+                if not opt.hash_query(n_.inputs, n_.output, n_.size_dict)[1]:
+                    return ("cleanup_keeps_entry", step, f"step {step}: after cleanup() the optimizer still reports a stored contraction present", {})
+                if directory:
+                    c2 = {"searches": 0}
+                    o2 = make_opt(dict(cfg, cache_only=True, overwrite=False), directory, c2)
+                    try:
+                        o2.search(n_.inputs, n_.output, n_.size_dict)
+                    except KeyError:
+                        continue
+                    except Exception as e:
+                        return ("cleanup_keeps_entry", step, f"step {step}: after cleanup() a fresh cache_only optimizer on the directory fails with {type(e).__name__}: {e}", {})
+                    return ("cleanup_keeps_entry", step, f"step {step}: after cleanup() a fresh cache_only optimizer on the directory still answers a previously stored contraction (entry files survive: {sorted(os.listdir(directory))[:4]})", {})
+            creators.clear()
+            stored_scores.clear()
+            origin.clear()
+            known_exact.clear()
+            hk_of_exact.clear()
             pending.clear()
             post_cleanup = 3
             cleaned = True
